@@ -94,7 +94,8 @@ type ReqPlan struct {
 	FaultN     string `json:"fault_name"`
 	Timeout    bool   `json:"read_timeout_40ms"`
 	ReqTimeout bool   `json:"request_timeout_300ms"`
-	Ctx        string `json:"ctx"` // "live", "cancelled-before", "cancelled-during"
+	API        string `json:"api,omitempty"` // "" = Do, "GetTimeout" = HostClient.GetTimeout (40 ms / 300 ms / 2 s)
+	Ctx        string `json:"ctx"`           // "live", "cancelled-before", "cancelled-during"
 	PreDelay   int    `json:"pre_delay_us"`
 }
 
@@ -284,6 +285,8 @@ func (w *world) peer(connID int, c net.Conn) {
 		id := "?"
 		if len(ids) == 1 {
 			id = ids[0]
+		} else if i := strings.Index(req.Target, "?id="); i >= 0 {
+			id = req.Target[i+4:] // calls made through GetTimeout carry their id in the query
 		}
 		atomic.AddInt32(&w.busyPeers, 1)
 		w.mu.Lock()
@@ -361,8 +364,8 @@ func (w *world) peer(connID int, c net.Conn) {
 			timeouted := false
 			for _, g := range w.plan.Goroutines {
 				for _, r := range g {
-					if r.ID == id && r.Timeout {
-						timeouted = true
+					if r.ID == id && r.Timeout && r.API == "" {
+						timeouted = true // (through GetTimeout only the caller times out; the exchange itself goes on and may complete)
 					}
 				}
 			}
@@ -461,17 +464,33 @@ func runPlan(p *Plan) (string, *world) {
 					go func() { time.Sleep(5 * time.Millisecond); cancel() }()
 				}
 				t0 := time.Now()
-				err := hc.Do(ctx, req, resp)
+				var err error
+				var getBody []byte
+				if r.API == "GetTimeout" {
+					// the URL helper: the exchange runs in a goroutine of its own and goes on after the caller timed out
+					to := 2 * time.Second
+					if r.Timeout {
+						to = readTimeout
+					} else if r.ReqTimeout {
+						to = reqTimeout
+					}
+					_, getBody, err = hc.GetTimeout(ctx, nil, "http://example.com/x?id="+r.ID, to)
+				} else {
+					err = hc.Do(ctx, req, resp)
+				}
 				el := time.Since(t0)
 				cancel()
 				res := callResult{id: r.ID, err: err, elapsed: el}
 				if err == nil {
 					res.body = string(resp.Body())
+					if r.API == "GetTimeout" {
+						res.body = string(getBody)
+					}
 				}
 				rmu.Lock()
 				results = append(results, res)
 				rmu.Unlock()
-				w.logf("g%d: Do(%s id=%s) -> err=%v body=%q in %v", gi, r.Method, r.ID, err, res.body, el)
+				w.logf("g%d: %s(%s id=%s) -> err=%v body=%q in %v", gi, map[bool]string{true: "GetTimeout", false: "Do"}[r.API == "GetTimeout"], r.Method, r.ID, err, res.body, el)
 				protocol.ReleaseRequest(req)
 				protocol.ReleaseResponse(resp)
 			}
@@ -641,6 +660,14 @@ func genPlan(t *rapid.T) *Plan {
 			r.ReqTimeout = rapid.IntRange(0, 4).Draw(t, "reqTimeout") == 0
 			if r.Fault == fSilentCloseThenStall {
 				r.Timeout, r.ReqTimeout = false, true
+			}
+			if rapid.IntRange(0, 4).Draw(t, "viaGetTimeout") == 0 {
+				// GetTimeout leaves the exchange running after the caller's timeout: only faults that end by themselves
+				r.API, r.Method = "GetTimeout", "GET"
+				if r.Fault == fSilentCloseThenStall {
+					r.Fault, r.FaultN = fStall, faultNames[fStall]
+				}
+				r.Ctx = "live"
 			}
 			r.Ctx = rapid.SampledFrom([]string{"live", "live", "live", "live", "cancelled-before", "cancelled-during"}).Draw(t, "ctx")
 			r.PreDelay = rapid.SampledFrom([]int{0, 0, 50, 500, 3000}).Draw(t, "preDelay")
